@@ -1097,6 +1097,11 @@ func (kcp *KCP) SetMtu(mtu int) int {
 
 	kcp.mtu = uint32(mtu)
 	kcp.mss = kcp.mtu - IKCP_OVERHEAD
+	if kcp.mss > mtuLimit-IKCP_OVERHEAD {
+		// segment payloads live in pooled buffers of mtuLimit bytes: larger MTUs batch more segments
+		// per datagram but a single segment never exceeds what a pooled buffer holds
+		kcp.mss = mtuLimit - IKCP_OVERHEAD
+	}
 	kcp.buffer = make([]byte, (mtu+IKCP_OVERHEAD)*3)
 	return 0
 }
